@@ -12,6 +12,7 @@ import (
 	"github.com/refraction-networking/uquic/internal/utils"
 	"github.com/refraction-networking/uquic/internal/wire"
 	"github.com/refraction-networking/uquic/qlogwriter"
+	"github.com/refraction-networking/uquic/quicvarint"
 	tls "github.com/refraction-networking/utls"
 )
 
@@ -41,29 +42,32 @@ func configCoveringSpec(conf *Config, spec *QUICSpec) *Config {
 			if slices.Contains(spec.SuppressTransportParameters, p.ID()) {
 				continue // will not be sent
 			}
-			switch v := p.(type) {
-			case tls.InitialMaxData:
-				c.InitialConnectionReceiveWindow = max(c.InitialConnectionReceiveWindow, uint64(v))
-			case tls.InitialMaxStreamDataBidiLocal:
-				c.InitialStreamReceiveWindow = max(c.InitialStreamReceiveWindow, uint64(v))
-			case tls.InitialMaxStreamDataBidiRemote:
-				c.InitialStreamReceiveWindow = max(c.InitialStreamReceiveWindow, uint64(v))
-			case tls.InitialMaxStreamDataUni:
-				c.InitialStreamReceiveWindow = max(c.InitialStreamReceiveWindow, uint64(v))
-			case tls.InitialMaxStreamsBidi:
-				c.MaxIncomingStreams = max(c.MaxIncomingStreams, int64(min(uint64(v), uint64(protocol.MaxStreamCount))))
-			case tls.InitialMaxStreamsUni:
-				c.MaxIncomingUniStreams = max(c.MaxIncomingUniStreams, int64(min(uint64(v), uint64(protocol.MaxStreamCount))))
-			case tls.MaxDatagramFrameSize:
-				if v > 0 {
+			// What counts is the parameter's ID and the value it puts on the wire, whatever Go type carries
+			// it (a tls.FakeQUICTransportParameter with the ID of a limit advertises that limit as well).
+			raw := p.Value()
+			val, n, err := quicvarint.Parse(raw)
+			if err != nil || n != len(raw) {
+				continue // not an integer-valued parameter
+			}
+			switch p.ID() {
+			case tls.InitialMaxData(0).ID():
+				c.InitialConnectionReceiveWindow = max(c.InitialConnectionReceiveWindow, val)
+			case tls.InitialMaxStreamDataBidiLocal(0).ID(), tls.InitialMaxStreamDataBidiRemote(0).ID(), tls.InitialMaxStreamDataUni(0).ID():
+				c.InitialStreamReceiveWindow = max(c.InitialStreamReceiveWindow, val)
+			case tls.InitialMaxStreamsBidi(0).ID():
+				c.MaxIncomingStreams = max(c.MaxIncomingStreams, int64(min(val, uint64(protocol.MaxStreamCount))))
+			case tls.InitialMaxStreamsUni(0).ID():
+				c.MaxIncomingUniStreams = max(c.MaxIncomingUniStreams, int64(min(val, uint64(protocol.MaxStreamCount))))
+			case tls.MaxDatagramFrameSize(0).ID():
+				if val > 0 {
 					c.EnableDatagrams = true
 				}
-			case tls.MaxIdleTimeout:
+			case tls.MaxIdleTimeout(0).ID():
 				// in milliseconds; 0 means "no idle timeout", like leaving the parameter out
-				if v > 0 {
+				if val > 0 {
 					advertisesIdleTimeout = true
-					if uint64(v) <= uint64(noIdleTimeout/time.Millisecond) {
-						c.MaxIdleTimeout = max(c.MaxIdleTimeout, time.Duration(v)*time.Millisecond)
+					if val <= uint64(noIdleTimeout/time.Millisecond) {
+						c.MaxIdleTimeout = max(c.MaxIdleTimeout, time.Duration(val)*time.Millisecond)
 					} else {
 						c.MaxIdleTimeout = noIdleTimeout
 					}
